@@ -148,6 +148,8 @@ def run(eng: Engine, ck: Check):
                 tr = enum_members_in(a[2])
         ck.ob('R-C17-REPAIR', it, it.node, 'is_transferring() = DOWNLOADING or UPLOADING', tr == {'DOWNLOADING', 'UPLOADING'}, f'{sorted(tr)}', construct='is_transferring states')
         # transferring -> COMPLETE iff is_transfered else INCOMPLETE
+        from .c04 import is_transfered_definition
+        is_transfered_definition(eng, ck, 'R-C17-REPAIR')
         inst = [x for x in calls_in(lp) if call_name(x) == 'init_from_state' and len(x.args) >= 2]
         SV = unparse(inst[0].args[0]) if len(inst) == 1 else 'state'
         assigns = [(n, enum_member(n.value)) for n in walk_local(lp) if isinstance(n, ast.Assign) and unparse(n.targets[0]) == SV and enum_member(n.value)]
